@@ -90,6 +90,10 @@ def parseView5 (p k rn f a : String) : Option View := do
       | "l" => some (some AggSel.last)
       | "e" => some (some AggSel.explicit)
       | "b" => some (some AggSel.expo)
+      -- aggregations that fail `Aggregation.err()` (non-monotonic boundaries / MaxSize 0): NewView logs the error and
+      -- uses NO aggregation for the view (view.go:83-94); the view itself still applies
+      | "E" => some none
+      | "B" => some none
       | _ => none
     pure { pat := pat, kind := kind, rename := rename, filter := filter, agg := agg }
 
@@ -436,6 +440,13 @@ def judge (L : Nat) (tps : List Temporality) (insts : List Inst) (views : List V
           tagIf (views.any fun v => match v.pat with | .glob _ => true | _ => false) "glob-criterion" ++
           tagIf (views.any fun v => match v.pat with | .glob p => p.any Glob.isWild && p.any (fun c => Glob.special c && !Glob.isWild c) | _ => false)
             "glob-special-rune" ++
+          tagIf ((List.range insts.length).any fun j => match insts[j]? with
+            | some i => views.any fun v => v.matches (i.name.getD j) i && incompatible i v.agg
+            | none => false) "view-cannot-be-honoured" ++
+          tagIf ((List.range insts.length).any fun j => match insts[j]? with
+            | some i => (views.any fun v => v.matches (i.name.getD j) i && incompatible i v.agg) &&
+                        (views.any fun v => v.matches (i.name.getD j) i && !incompatible i v.agg)
+            | none => false) "valid-and-invalid-views-on-one-instrument" ++
           tagIf (ops.any fun o => match o with | .create _ => true | _ => false) "late-instrument" ++
           tagIf ((List.range insts.length).any fun j => isAsync insts j && !cbActive insts j) "repeated-observable-callback-unused" ++
           tagIf ((insts.map fun i => (i.name, i.scope)).eraseDups.length < insts.length) "same-name-in-meter" ++
